@@ -12,20 +12,30 @@ META = {
             "hasher-chosen permutation, folded through a non-commutative analyze step), the per-workspace grouping and "
             "get_best_analysis_order: with the sort that the current source contains (table regenerated from source on every "
             "run) the result is a function of the registered files for EVERY analyze step and EVERY hasher permutation; "
-            "without it a transcribed first-assignment-wins step yields different diagnostics (refutation witness). Tied to "
-            "the code by the regenerated sort table, by the recorded update_index order (hook) and the model's order on the "
-            "same workspaces; the property itself is searched on the implementation with generated multi-file workspaces "
-            "analysed in fresh processes (fresh hash seeds) and compared by canonical dumps.",
-    "note": "Trusted: Coq kernel; the hand model of lib.rs/analyzer/mod.rs/file_dependency_relation.rs (validated by the "
-            "recorded-order correspondence, not proved equal to the Rust); the regex translator. Hash-map iteration INSIDE the "
-            "analyzers is not modelled: it is covered only by the fresh-process search. Axioms: none.",
-    "technique": "Coq proof (permutation invariance of sort + generic fold) about a hand-written Gallina transcription + "
-                 "source-regenerated sort table + recorded-order correspondence + fresh-process differential search",
+            "without it a transcribed first-assignment-wins step yields different diagnostics (refutation witness). "
+            "get_best_analysis_order is also transcribed literally (file_to_idx map, adjacency / in_degree vectors filled by the "
+            "nested build loop over the hash sets, index queue, sort_by on indices, leftover scan) and PROVED equal to the closed "
+            "form the theorems use. The regenerated table also lists every HashMap/HashSet iteration site of compilation/ and "
+            "db_index/, semantic/ and diagnostic/ (60 today) with a reviewed class, with the obligation that none is order-sensitive or unreviewed. Tied to "
+            "the code by the regenerated table, by the recorded update_index order (hook) and by the implementation's best order "
+            "on generated dependency relations; the property itself is searched on the implementation with generated multi-file "
+            "workspaces (19 snippet classes incl. generics, overloads, namespaces, unresolved member owners, library workspaces) "
+            "analysed in fresh processes (fresh hash seeds) and compared by canonical dumps, plus the real emmylua_check binary.",
+    "note": "Trusted: Coq kernel; the hand model of lib.rs/analyzer/mod.rs (validated by the recorded-order correspondence, not "
+            "proved equal to the Rust); the regex translator and the hash-site scanner (name based, per file) with its hand-reviewed "
+            "classification table in checks/C11.py (sites the name-based scanner cannot see, e.g. iteration through a method that returns a "
+            "map, are covered only by the fresh-process search). Defects found and fixed: unsorted ids in update_files_by_uri; hash-ordered "
+            "resolution of unresolved-reason groups in the unresolve pipeline; hash-ordered member visit in generic table pattern matching "
+            "(pairs() key/value unions). Axioms: none.",
+    "technique": "Coq proof (permutation invariance of sort + generic fold; simulation proof literal index-based algorithm = closed "
+                 "form) about a hand-written Gallina transcription + source-regenerated sort / hash-site table + recorded-order "
+                 "correspondence + fresh-process differential search",
 }
 
 THEOREMS = [("driver_deterministic", "theorem"), ("driver_current_source_deterministic", "table"),
             ("driver_order_dependent_refuted", "refutation"), ("grouping_deterministic", "theorem"),
             ("best_order_deterministic", "theorem"), ("best_order_acyclic_permutation_invariant", "theorem"),
+            ("best_order_literal_is_closed_form", "theorem"), ("best_order_literal_deterministic", "theorem"),
             ("best_order_cycle_input_order_refuted", "refutation"), ("driver_example", "example")]
 
 TRUSTED = [
@@ -35,7 +45,8 @@ TRUSTED = [
     "(compilation/analyzer/mod.rs) and FileDependencyRelation::get_best_analysis_order; tied by the recorded-order "
     "correspondence (hook verif_c11 + coq/theories/C11/Corr.v)",
     "regex translator in checks/C11.py producing coq/theories/Gen/C11_Sort.v (presence of a sort between the id collection "
-    "and update_index in every update entry point; sort_by_key over the workspace contexts; at most one unsorted group)",
+    "and update_index in every update entry point; sort_by_key over the workspace contexts; at most one unsorted group) and the "
+    "name-based scanner of HashMap/HashSet iteration sites in compilation/ and db_index/ with the hand-reviewed classes REVIEWED_SITES",
     "modelling assumptions: a HashSet/HashMap iteration is an arbitrary permutation of its elements; FileId = registration index",
     "search oracle: equality of canonical dumps (sorted diagnostics, inferred type of every expression and name token, member "
     "sets of every declared type; `{…}` member listings compared as sets) between fresh processes with identical registration order",
@@ -67,12 +78,22 @@ TYPES = ["integer", "string", "boolean", "number", "table", "string[]", "fun(): 
 FILE_POOL = ["a.lua", "b.lua", "c.lua", "d.lua", "e.lua", "f.lua", "g.lua", "h.lua", "sub/i.lua", "sub/j.lua", "lib/k.lua", "z.lua"]
 
 
-def gen_workspace(rng, idx, nfiles=None):
+def gen_workspace(rng, idx, nfiles=None, libs_ok=True):
     """a small multi-file workspace; every snippet class is designed so that some cross-file fact has several
     candidate definitions, i.e. the outcome can depend on which file is analysed first"""
     nf = nfiles or (3 + rng.below(6))
     names = rng.sample(FILE_POOL, nf)
+    libs = []
+    if libs_ok and rng.chance(1, 5):
+        # the files spread over the main workspace and two library workspaces (each its own module root)
+        libs = ["lib1", "lib2"]
+        names = ["%s/%s" % (["main", "main", "lib1", "lib2"][rng.below(4)], n.replace("lib/", "")) for n in names]
     bodies = {n: [] for n in names}
+
+    def modname(n):
+        if libs:
+            n = n.split("/", 1)[1]
+        return n[:-4].replace("/", ".")
     kinds = []
     counter = [0]
 
@@ -99,7 +120,7 @@ def gen_workspace(rng, idx, nfiles=None):
 
     nfeat = 1 + rng.below(4)
     for _ in range(nfeat):
-        f = rng.below(14)
+        f = rng.below(19)
         k = fresh()
         if f == 0:
             kinds.append("glob_scalar")
@@ -165,18 +186,18 @@ def gen_workspace(rng, idx, nfiles=None):
             for i, m in enumerate(mods):
                 bodies[m].append("return M%d" % k)   # moved to the end below
             for m in mods:
-                mod = m[:-4].replace("/", ".")
+                mod = modname(m)
                 use('require("%s").v' % mod)
                 use('require("%s").f()' % mod)
         elif f == 9:
             kinds.append("require_cycle")
             mods = rng.sample(names, min(len(names), 2 + rng.below(2)))
             for i, m in enumerate(mods):
-                nxt = mods[(i + 1) % len(mods)][:-4].replace("/", ".")
+                nxt = modname(mods[(i + 1) % len(mods)])
                 bodies[m].insert(0, 'local o%d = require("%s")' % (k, nxt))
                 bodies[m].append("return { v = o%d and o%d.v or %s, w = %s }" % (k, k, rng.pick(LITS[:4]), rng.pick(LITS[:4])))
-            use('require("%s").v' % mods[0][:-4].replace("/", "."))
-            use('require("%s").w' % mods[-1][:-4].replace("/", "."))
+            use('require("%s").v' % modname(mods[0]))
+            use('require("%s").w' % modname(mods[-1]))
         elif f == 10:
             kinds.append("inherit")
             b = "B%d" % k
@@ -197,6 +218,52 @@ def gen_workspace(rng, idx, nfiles=None):
                          "function %s(a, b) return 1 end" % fn, "---@class MC%d\n---@field m string" % k])
             use(fn + "(1)")
             put("---@type MC%d\nlocal mc%d\nprint(mc%d.m)" % (k, k, k))
+        elif f == 14:
+            kinds.append("unresolved_owner")
+            # member assignments whose owner is only known after another file has been analysed: each is parked
+            # under its own unresolved reason and resolved by the unresolve pipeline
+            u = "U%d" % k
+            lits = rng.sample(LITS[:4], 2 + rng.below(2))
+            fs = spread(["---@class %s\n%s = {}" % (u, u)] + ["get%s_%d().x = %s" % (u, i, l) for i, l in enumerate(lits)])
+            put("\n".join("function get%s_%d() return %s end" % (u, i, u) for i in range(len(lits))), rng.pick(names))
+            use(u + ".x")
+        elif f == 15:
+            kinds.append("generic")
+            g = "Id%d" % k
+            spread(["---@generic T\n---@param x T\n---@return T\nfunction %s(x) return x end" % g,
+                    "---@param x string\n---@return integer\nfunction %s(x) return 1 end" % g,
+                    "---@class Box%d<T>\n---@field v T" % k, "---@class Box%d<T>\n---@field v T[]\n---@field w integer" % k][: 2 + rng.below(3)])
+            use(g + "(1)")
+            use(g + '("s")')
+            put("---@type Box%d<integer>\nlocal bx%d\nprint(bx%d.v, bx%d)" % (k, k, k, k))
+        elif f == 16:
+            kinds.append("overload")
+            o = "Ov%d" % k
+            spread(["---@overload fun(a: string): string\n---@param a integer\n---@return integer\nfunction %s(a) return a end" % o,
+                    "---@overload fun(a: boolean): boolean\nfunction %s(a) return a end" % o,
+                    "---@class OC%d\n---@overload fun(x: integer): OC%d\nOC%d = {}" % (k, k, k),
+                    "---@class OC%d\n---@overload fun(x: string): string\nOC%d = OC%d or {}" % (k, k, k)][: 2 + rng.below(3)])
+            use(o + '("s")')
+            use(o + "(true)")
+            use(o + "(1)")
+            use("OC%d(1)" % k)
+        elif f == 17:
+            kinds.append("namespace")
+            fs = rng.sample(names, min(len(names), 3))
+            bodies[fs[0]].insert(0, "---@namespace NS%d\n---@class K%d\n---@field a integer" % (k, k))
+            bodies[fs[1 % len(fs)]].insert(0, "---@namespace NS%d\n---@class (partial) K%d\n---@field b string" % (k, k))
+            bodies[fs[2 % len(fs)]].insert(0, "---@namespace Other%d\n---@class K%d\n---@field a string" % (k, k))
+            put("---@type NS%d.K%d\nlocal nk%d\nprint(nk%d.a, nk%d.b)\n---@type Other%d.K%d\nlocal ok%d\nprint(ok%d.a)" % (k, k, k, k, k, k, k, k, k))
+            tgt = rng.pick(names)
+            bodies[tgt].insert(0, "---@using NS%d" % k)
+            bodies[tgt].append("---@type K%d\nlocal uk%d\nprint(uk%d.a, uk%d)" % (k, k, k, k))
+        elif f == 18:
+            kinds.append("table_generic")
+            # generic functions matched against a table's member map (pairs / user generics); needs the std library for pairs
+            t = "tg%d" % k
+            put("local %s = { a = 1, b = \"s\", c = true, d = 2.5, e = {} }\nfor pk%d, pv%d in pairs(%s) do\n  local kk%d, vv%d = pk%d, pv%d\nend\n"
+                "---@generic K, V\n---@param t table<K, V>\n---@return K, V\nlocal function first%d(t) end\nlocal fk%d, fv%d = first%d(%s)\nprint(fk%d, fv%d)"
+                % (t, k, k, t, k, k, k, k, k, k, k, k, t, k, k))
         else:
             kinds.append("global_member_chain")
             t = "W%d" % k
@@ -214,7 +281,10 @@ def gen_workspace(rng, idx, nfiles=None):
         text = "\n".join(rest + rets[:1]) + "\n"
         files.append([n, text])
     mode = ["uri", "uri", "uri", "path", "reindex", "reload"][rng.below(6)]
-    return {"files": files, "mode": mode, "kind": "+".join(sorted(set(kinds))), "id": idx}
+    spec = {"files": files, "mode": mode, "kind": "+".join(sorted(set(kinds + (["library_workspaces"] if libs else [])))), "id": idx}
+    if libs:
+        spec["libs"] = libs
+    return spec
 
 
 def describe_diff(a, b):
@@ -302,6 +372,158 @@ def classify_call(body, callee):
         else:
             res.append("unsorted")
     return res
+
+
+# ------------------------------------------------------------------------------------------ hash-iteration sites
+HASH_T = r'(?:hashbrown::|std::collections::)?(?:HashMap|HashSet)'
+HASH_ITER = r'\.\s*(iter|iter_mut|values|values_mut|keys|into_iter|drain|into_keys|into_values)\s*\('
+# classes: 0 sorted before use; 1 order-insensitive fold (independent per-entry update, any/all, counting, membership);
+# 2 listing only (the order of a member / symbol / file listing, which the property excludes or which only the
+# language server and the CLIs consume); 3 not a hash container (scanner over-approximation: the Vec stored in a map);
+# 4 log only; 8 order-sensitive; 9 Unknown (not reviewed)
+SITE_CLASS_NAMES = {0: "sorted-before-use", 1: "order-insensitive-fold", 2: "listing-only", 3: "not-a-hash-container", 4: "log-only",
+                    8: "order-sensitive", 9: "Unknown"}
+REVIEWED_SITES = {
+    "compilation/analyzer/infer_cache_manager.rs | set_force | for ... in self.infer_map.iter_mut()": (1, "sets the phase of every cache independently"),
+    "compilation/analyzer/infer_cache_manager.rs | clear | for ... in self.infer_map.iter_mut()": (1, "clears every cache independently"),
+    "compilation/analyzer/mod.rs | module_analyze | for ... in file_tree_map": (0, "contexts.sort_by_key + single MAIN bucket (theorem grouping_deterministic)"),
+    "compilation/analyzer/unresolve/mod.rs | record_unresolve_info | for ... in reason_unresolves.map.iter()": (4, "unused logging helper, counts per kind"),
+    "compilation/analyzer/unresolve/mod.rs | record_unresolve_info | unresolve_info .iter(": (4, "unused logging helper, sorted by count before printing"),
+    "db_index/schema/mod.rs | has_need_resolve_schemas | self.schema_files .values(": (1, "any()"),
+    "db_index/schema/mod.rs | get_need_resolve_schemas | self.schema_files .iter(": (2, "list of schema urls fetched by the language server"),
+    "db_index/schema/mod.rs | reset_rest_schemas | for ... in self.schema_files.values_mut()": (1, "resets every entry independently"),
+    "db_index/member/lua_owner_members.rs | get_member_items | self.members.values(": (2, "member listing of an owner (LuaMemberIndex::get_members); the property compares modulo member listing order"),
+    "db_index/member/lua_owner_members.rs | iter_mut | self.members.iter_mut(": (1, "LuaMemberIndex::remove: drops the file's ids from every item independently"),
+    "db_index/member/mod.rs | remove | for ... in owners": (1, "removal of one file's members per owner, owners independent"),
+    "db_index/flow/flow_tree.rs | get_nearest_common_antecedent | rest_antecedents.iter(": (1, "all() over a Vec of sets, membership only"),
+    "db_index/global/mod.rs | get_all_global_decl_ids | for ... in self.global_decl.values()": (2, "global listing for completion / workspace symbols / doc export / _G members"),
+    "db_index/dependency/file_dependency_relation.rs | get_best_analysis_order | for ... in deps": (1, "theorem best_order_literal_is_closed_form: the build loop does not depend on the set's iteration order"),
+    "db_index/dependency/file_dependency_relation.rs | collect_file_dependents | for ... in self.dependencies.iter()": (2, "reverse map for a reachability search whose result is a set (language-server reference search)"),
+    "db_index/dependency/file_dependency_relation.rs | collect_file_dependents | for ... in deps": (2, "same reachability search"),
+    "db_index/dependency/file_dependency_relation.rs | collect_file_dependents | result.into_iter(": (2, "set of dependents returned as a list (language-server reference search sorts / treats it as a set)"),
+    "db_index/reference/mod.rs | get_string_references | self.string_references .iter(": (2, "find-references listing"),
+    "db_index/reference/mod.rs | get_type_references | self .type_references .iter(": (2, "find-references listing"),
+    "db_index/reference/mod.rs | remove | for ... in self.index_reference.iter_mut()": (1, "per-entry removal"),
+    "db_index/reference/mod.rs | remove | for ... in self.global_references.iter_mut()": (1, "per-entry removal"),
+    "db_index/module/mod.rs | get_module_infos | self.file_module_map.values(": (2, "module listing (completion, doc export sorts it)"),
+    "db_index/module/mod.rs | get_std_file_ids | for ... in self.file_module_map.values()": (2, "file listing"),
+    "db_index/module/mod.rs | get_main_workspace_file_ids | for ... in self.file_module_map.values()": (2, "list of files to diagnose (emmylua_check / workspace diagnostics); per-file results do not depend on it"),
+    "db_index/module/mod.rs | get_lib_file_ids | for ... in self.file_module_map.values()": (2, "file listing"),
+    "db_index/type/mod.rs | find_type_decls | for ... in self.full_name_type_map.keys()": (2, "type-name completion listing"),
+    "db_index/type/mod.rs | get_super_types_raw | supers.iter(": (3, "`supers` here is the Vec stored in the map (declaration order)"),
+    "db_index/type/mod.rs | get_super_types_iter | supers.iter(": (3, "the Vec stored in the map"),
+    "db_index/type/mod.rs | super_reaches | supers .iter(": (3, "the Vec stored in the map"),
+    "db_index/type/mod.rs | get_sub_types | for ... in &self.supers": (2, "sub-type listing (implementations / hierarchy requests)"),
+    "db_index/type/mod.rs | get_sub_types | for ... in supers": (3, "the Vec stored in the map"),
+    "db_index/type/mod.rs | get_all_types | self.full_name_type_map.values(": (2, "type listing"),
+    "db_index/type/mod.rs | get_file_namespaces | self.file_namespace .values(": (2, "namespace completion listing"),
+    "db_index/type/types/complex.rs | cast_down_array_base | for ... in (1..).zip(fields)": (0, "fields.sort_by_key before the loop"),
+    "db_index/type/types/complex.rs | cast_down_array_base | self.fields.iter(": (0, "collected then sort_by_key"),
+    "db_index/type/types/complex.rs | from_set | for ... in &set": (1, "bitset union of basic kinds, breaks only on a non-basic member (result independent of order)"),
+    "db_index/type/types/complex.rs | from_set | set.iter(": (1, "the single remaining element of a 2-set after removing nil"),
+    "semantic/generic/infer_call_generic.rs | instantiate_callable_from_arg_types | for ... in callback_return_tpls": (1, "independent insert per template id"),
+    "semantic/generic/type_substitutor.rs | add_need_infer_tpls | for ... in tpl_ids": (1, "entry().or_insert per template id"),
+    "semantic/generic/type_substitutor.rs | is_infer_all_tpl | for ... in self.tpl_replace_map.values()": (1, "all()"),
+    "semantic/generic/instantiate_type/instantiate_conditional_generic.rs | instantiate_true_branch | for ... in infer_assignments": (1, "replace_value per template id"),
+    "semantic/generic/instantiate_type/instantiate_conditional_generic.rs | finalize_infer_assignments | assignments .into_iter(": (1, "map to map, per key"),
+    "semantic/generic/instantiate_type/instantiate_special_generic.rs | instantiate_merge_call | for ... in right_map": (1, "map insert per key (right wins), result is a map"),
+    "semantic/generic/tpl_pattern/mod.rs | object_tpl_pattern_match_member_owner_match | for ... in members": (0, "members collected and sorted by key before the loop (fix 7a0ddb3)"),
+    "semantic/generic/tpl_pattern/mod.rs | table_generic_tpl_pattern_member_owner_match | for ... in members": (0, "members collected and sorted by key before the loop (fix 7a0ddb3); TypeKey entries compare equal and keep map order"),
+    "semantic/generic/tpl_pattern/mod.rs | object_tpl_pattern_match_member_owner_match | members.into_iter(": (0, "collected into a Vec and sort_by key (fix 7a0ddb3)"),
+    "semantic/generic/tpl_pattern/mod.rs | table_generic_tpl_pattern_member_owner_match | members.into_iter(": (0, "collected into a Vec and sort_by key (fix 7a0ddb3)"),
+    "semantic/infer/infer_index/mod.rs | infer_type_key_member_type | for ... in keys": (0, "get_type_member_key returns the keys sorted"),
+    "semantic/infer/infer_index/mod.rs | get_type_member_key | keys.into_iter(": (0, "collected then keys.sort()"),
+    "diagnostic/lua_diagnostic_config.rs | new | for ... in &emmyrc.diagnostics.severity": (1, "map insert per code"),
+    "diagnostic/checker/cast_type_mismatch.rs | expand_type_recursive | expanded_types.iter(": (1, "next() of a one-element set"),
+    "diagnostic/checker/check_field.rs | is_valid_member | key_types .iter(": (1, "any()"),
+    "diagnostic/checker/check_field.rs | is_valid_member | key_types.iter(": (1, "any()"),
+    "diagnostic/checker/check_field.rs | check_enum_self_reference | key_types.iter(": (1, "any()"),
+    "diagnostic/checker/check_field.rs | get_key_types | for ... in key_types": (1, "insert into a set"),
+    "diagnostic/checker/duplicate_field.rs | check_decl_duplicate_field | for ... in member_map.iter()": (2, "order of the diagnostics list of one file (compared sorted)"),
+    "diagnostic/checker/duplicate_index.rs | check_table_duplicate_index | for ... in index_map": (2, "order of the diagnostics list of one file (compared sorted)"),
+    "diagnostic/checker/redefined_local.rs | check | for ... in diagnostics": (2, "order of the diagnostics list of one file (compared sorted)"),
+    "diagnostic/checker/unknown_doc_tag.rs | check | known_tags .iter(": (3, "iterates the configured Vec to build a set"),
+    "db_index/type/types/complex.rs | from_set | set.into_iter(": (2, "member order of a union built from a set (cast-type-mismatch checker); unions are compared as sets by the type checks"),
+}
+
+
+def hash_names(src):
+    names = set()
+    for m in re.finditer(r"\b([a-z_][a-z0-9_]*)\s*:\s*&?(?:mut\s+)?(?:'[a-z]+\s+)?(?:Option<\s*)?(?:Arc<\s*)?%s\s*<" % HASH_T, src):
+        names.add(m.group(1))
+    for m in re.finditer(r"\blet\s+(?:mut\s+)?([a-z_][a-z0-9_]*)\s*(?::[^=;]*)?=\s*[^;]*?%s::(?:new|with_capacity|default|from)" % HASH_T, src):
+        names.add(m.group(1))
+    for m in re.finditer(r"\blet\s+(?:mut\s+)?([a-z_][a-z0-9_]*)\s*(?::[^=;]*)?=[^;]*?collect::<\s*%s" % HASH_T, src):
+        names.add(m.group(1))
+    for m in re.finditer(r"\blet\s+(?:mut\s+)?([a-z_][a-z0-9_]*)\s*:\s*%s" % HASH_T, src):
+        names.add(m.group(1))
+    return names
+
+
+def scan_hash_sites(subdirs=("compilation", "db_index", "semantic", "diagnostic")):
+    """every place in the compilation pipeline / the indexes that iterates a HashMap / HashSet (by name, per file):
+    `for … in <hash>`, `<hash>.iter()/values()/keys()/into_iter()/drain()`, `x.extend(<hash>)`; tests and verif hooks excluded"""
+    base = os.path.join(REPO, "crates", "emmylua_code_analysis", "src")
+    found = []
+    for sub in subdirs:
+        for root, dirs, names in os.walk(os.path.join(base, sub)):
+            dirs.sort()
+            if re.search(r"/tests?(/|$)|test_lib", root):
+                continue
+            for n in sorted(names):
+                if not n.endswith(".rs") or "test" in n:
+                    continue
+                fp = os.path.join(root, n)
+                rel = os.path.relpath(fp, base)
+                src = open(fp, encoding="utf8", errors="replace").read()
+                names_h = hash_names(src)
+                if not names_h:
+                    continue
+                cut = src.find("#[cfg(test)]\nmod ")
+                if cut >= 0:
+                    src = src[:cut]
+                nm = "|".join(sorted(map(re.escape, names_h)))
+                for fn, bodies in fn_bodies(src).items():
+                    if fn.startswith("verif_"):
+                        continue
+                    for body in bodies:
+                        for m in re.finditer(r"\bfor\s+([^;{}]*?)\s+in\s+([^{};]*?)\s*\{", body):
+                            expr = m.group(2)
+                            if re.search(r"(?:self\s*\.\s*)?\b(%s)\b(?!\s*\()" % nm, expr) and not re.search(r"\b(%s)\s*\.\s*(get|get_mut|entry)\s*\(" % nm, expr):
+                                found.append("%s | %s | for ... in %s" % (rel, fn, re.sub(r"\s+", " ", expr)))
+                        for m in re.finditer(r"(?:self\s*\.\s*)?\b(%s)\b\s*(?:\.\s*as_ref\(\)\s*)?%s" % (nm, HASH_ITER), body):
+                            pre = body[max(0, m.start() - 80):m.start()]
+                            if re.search(r"\bfor\s+[^;{}]*\s+in\s+[^{};]*$", pre):
+                                continue
+                            found.append("%s | %s | %s" % (rel, fn, re.sub(r"\s+", " ", m.group(0))))
+                        for m in re.finditer(r"\.\s*extend\s*\(\s*(?:self\s*\.\s*)?\b(%s)\b" % nm, body):
+                            found.append("%s | %s | extend from %s" % (rel, fn, m.group(1)))
+    out = []
+    for f in found:
+        f = f.encode("ascii", "replace").decode()
+        if f not in out:
+            out.append(f)
+    return out
+
+
+def hash_site_table(ck):
+    sites = scan_hash_sites()
+    rows = []
+    for sname in sites:
+        cls, why = REVIEWED_SITES.get(sname, (9, "not reviewed"))
+        rows.append((sname, cls, why))
+    bad = [r for r in rows if r[1] >= 8]
+    for sname, cls, why in bad:
+        ck.tie_broken("hash-iteration site is %s: %s" % (SITE_CLASS_NAMES[cls], sname),
+                      "a HashMap/HashSet is iterated here and the iteration order has not been shown harmless; review the site, "
+                      "add it to REVIEWED_SITES in checks/C11.py with its class, or make the iteration deterministic")
+    if len(sites) < 10:
+        ck.tie_broken("translator anchor missing: the hash-iteration scanner found only %d sites" % len(sites), "scanner broken?")
+    stale = [k for k in REVIEWED_SITES if k not in sites]
+    ck.cov["table_obligations"].append({"table": "Gen/C11_Sort.v hash_sites", "sites": len(rows),
+                                        "by_class": {SITE_CLASS_NAMES[c]: sum(1 for r in rows if r[1] == c) for c in sorted(set(r[1] for r in rows))},
+                                        "unreviewed_or_order_sensitive": [r[0] for r in bad], "reviewed_entries_no_longer_in_source": stale})
+    return rows
 
 
 def translate_sort_table(ck):
@@ -429,12 +651,16 @@ def translate_sort_table(ck):
 
     def b(x):
         return "true" if x else "false"
+    ck.cov["table_obligations"] = []
+    site_rows = hash_site_table(ck)
     head = hashlib.sha1((uri + path + single + reindex + ma + bo).encode()).hexdigest()[:12]
     lines = [
         "(** Gen/C11_Sort.v — GENERATED by checks/C11.py (translate_sort_table) from /repo on every run; do not edit.",
         "    sources: emmylua_code_analysis/src/{lib.rs, vfs/mod.rs, compilation/analyzer/mod.rs, compilation/analyzer/lua/mod.rs,",
         "    db_index/module/workspace.rs, db_index/dependency/file_dependency_relation.rs}; sha1 of the read items: %s *)" % head,
-        "From Coq Require Import NArith Bool.",
+        "From Coq Require Import NArith Bool String List.",
+        "Import ListNotations.",
+        "Local Open Scope string_scope.",
         "Local Open Scope N_scope.",
         "(* update_files_by_uri: is the id list sorted between the hash-set collection and remove_index / update_index *)",
         "Definition uri_sorts_removed : bool := %s." % b(flags["uri_sorts_removed"]),
@@ -459,6 +685,13 @@ def translate_sort_table(ck):
         "(* get_best_analysis_order: both sort_by closures are (meta first, then file_ids[a].cmp(&file_ids[b])); the Lua pipeline iterates that order *)",
         "Definition best_order_tiebreak_by_file_id : bool := %s." % b(flags["best_order_tiebreak_by_file_id"]),
         "Definition lua_pipeline_uses_best_order : bool := %s." % b(flags["lua_pipeline_uses_best_order"]),
+        "(* every place in compilation/ and db_index/ that iterates a HashMap/HashSet, with its reviewed class:",
+        "   0 sorted before use, 1 order-insensitive fold, 2 listing only, 3 not a hash container, 4 log only, 8 order-sensitive, 9 Unknown *)",
+        "Definition hash_sites : list (string * N) := [",
+        ";\n".join('  ("%s", %d)' % (r[0].replace('"', '""'), r[1]) for r in site_rows),
+        "].",
+        "Definition hash_site_ok (c : N) : bool := c <? 8.",
+        "Definition hash_sites_all_reviewed : bool := forallb (fun e : string * N => hash_site_ok (snd e)) hash_sites.",
         "",
     ]
     out = os.path.join(COQ, "theories", "Gen", "C11_Sort.v")
@@ -469,7 +702,7 @@ def translate_sort_table(ck):
             fh.write(new)
     flags["other_update_index_callers"] = others
     flags.update({"ws_" + k.lower(): v for k, v in consts.items()})
-    ck.cov["table_obligations"] = [{"table": "Gen/C11_Sort.v", "entries": {k: (v if not isinstance(v, bool) else bool(v)) for k, v in sorted(flags.items())},
+    ck.cov["table_obligations"] += [{"table": "Gen/C11_Sort.v", "entries": {k: (v if not isinstance(v, bool) else bool(v)) for k, v in sorted(flags.items())},
                                     "anchors_missing": missing}]
     return flags
 
@@ -536,7 +769,7 @@ def differing(ck, binpath, spec, nproc=8):
 def shrink(ck, binpath, spec, budget_s=60):
     """delta-debug a differing workspace: drop files, then lines, while fresh runs still disagree"""
     t0 = time.time()
-    cur = {"files": [list(f) for f in spec["files"]], "mode": spec.get("mode", "uri"), "std": spec.get("std", False)}
+    cur = {"files": [list(f) for f in spec["files"]], "mode": spec.get("mode", "uri"), "std": spec.get("std", False), "libs": spec.get("libs", [])}
     changed = True
     while changed and time.time() - t0 < budget_s:
         changed = False
@@ -571,7 +804,8 @@ def shrink(ck, binpath, spec, budget_s=60):
 def features(spec):
     """the class of input of a (shrunk) workspace"""
     texts = [(n, t or "") for n, t in spec["files"]]
-    mods = {n[:-4].replace("/", "."): n for n, _ in texts}
+    strip = (lambda n: n.split("/", 1)[1] if "/" in n else n) if spec.get("libs") else (lambda n: n)
+    mods = {strip(n)[:-4].replace("/", "."): n for n, _ in texts}
     req = {n: set(mods[m] for m in re.findall(r'require\("([^"]+)"\)', t) if m in mods) for n, t in texts}
 
     def reaches(a, b, seen=None):
@@ -623,7 +857,7 @@ def report_violation(ck, binpath, spec, a, b, do_shrink=True):
     sig = "dump-differs[%s];%s" % (",".join(cls), features(small))
     what = ("same files, same registration order, different results in two fresh analyses (%s): %s"
             % (", ".join(cls), describe_diff(a, b).replace("\n", " | ")[:600]))
-    ck.violation(sig, what, {"spec": {"files": small["files"], "mode": small.get("mode", "uri"), "std": small.get("std", False)},
+    ck.violation(sig, what, {"spec": {"files": small["files"], "mode": small.get("mode", "uri"), "std": small.get("std", False), "libs": small.get("libs", [])},
                              "original_kind": spec.get("kind"), "diff": describe_diff(a, b)[:4000]})
 
 
@@ -867,7 +1101,7 @@ def checker_processes(ck, checker, nws, nruns):
     diagnostics (as a set per file) must be identical in every run"""
     rng = R(ck.seed ^ 0xC11C)
     specs = [s for s in load_corpus() if s["id"].startswith("w")][:3]
-    specs += [gen_workspace(rng.fork(), "e%d" % i) for i in range(nws)]
+    specs += [gen_workspace(rng.fork(), "e%d" % i, libs_ok=False) for i in range(nws)]
     jobs = []
     for i, spec in enumerate(specs):
         d = os.path.join(ck.work, "ws_%d" % i)
@@ -960,7 +1194,8 @@ def main(argv):
             ck.log("correspondence done")
     ck.finish(
         trusted_base=TRUSTED,
-        rule="search: corpus + generated workspaces of 3-8 files built from 14 snippet classes (conflicting cross-file globals, global "
+        rule="search: corpus + generated workspaces of 3-8 files built from 19 snippet classes (generics, generic matching against table members, overloads across files, namespaces/using, "
+             "member assignments with unresolved owners, optionally spread over a main and two library workspaces; conflicting cross-file globals, global "
              "tables/functions, class members assigned in several files, partial / duplicate classes, aliases, enums, inheritance, typed "
              "globals, meta files, requires, require cycles, global member chains), every 4th also in a shuffled registration order, "
              "through update_files_by_uri / update_files_by_path / reindex / reload_workspace_files, each analysed twice in each of M fresh "
